@@ -12,6 +12,7 @@ Record dsobs := {
   o_rset : settings;            (* the dataset record's configuration (plain when it does not exist) *)
   o_versions : list meta;       (* every version of the meta entity "<ns>:<name>" in core.Dataset's change feed, in order *)
   o_distinct : Z;               (* distinct entity ids in the dataset's own change feed (0 when it does not exist) *)
+  o_latest : Z;                 (* entities in the dataset's latest view (0 when it does not exist) *)
   o_det_found : bool;           (* GetDatasetDetails(name) (= GET /datasets/name) *)
   o_det_items : Z
 }.
@@ -24,6 +25,7 @@ Record snapshot := {
 Inductive sop :=
 | SOp (o : cop)
 | SPair (n : Z) (ents : list ent) (b : cop) (reached blocked : bool)
+| SPairC (n : Z) (ents : list ent) (b : cop) (reached blocked : bool)   (* actor 1 held at batch.beforeIdCommit *)
 | SDetails (names : list Z) (obs : snapshot).
 Definition tcase := list sop.
 
@@ -42,6 +44,8 @@ Definition predict_ds (k : cat) (n : Z) : dsobs :=
      o_rset := match assoc n (k_reg k) with Some r => r_set r | None => plain end;
      o_versions := meta_versions k n;
      o_distinct := distinct_of k n;
+     o_latest := match assoc n (k_reg k) with
+                 | Some r => Z.of_nat (length (latest_keys (get_ds (k_st k) (r_code r)))) | None => 0 end;
      o_det_found := exists_ds k n && match latest with Some _ => true | None => false end;
      o_det_items := if exists_ds k n then match latest with Some m => m_items m | None => 0 end else 0 |}.
 
@@ -61,6 +65,7 @@ Definition pair_eqb (a b : Z * Z) : bool := Z.eqb (fst a) (fst b) && Z.eqb (snd 
 Definition dsobs_eqb (a b : dsobs) : bool :=
   Z.eqb (o_name a) (o_name b) && Bool.eqb (o_exists a) (o_exists b) && settings_eqb (o_rset a) (o_rset b)
   && list_eqb meta_eqb (o_versions a) (o_versions b) && Z.eqb (o_distinct a) (o_distinct b)
+  && Z.eqb (o_latest a) (o_latest b)
   && Bool.eqb (o_det_found a) (o_det_found b) && Z.eqb (o_det_items a) (o_det_items b).
 Definition snapshot_eqb (a b : snapshot) : bool :=
   list_eqb Z.eqb (o_names a) (o_names b) && list_eqb pair_eqb (o_live a) (o_live b)
@@ -79,6 +84,14 @@ Definition pair_flags (fl : cflags) (k : cat) (n : Z) (ents : list ent) (b : cop
     end in
   (reached, reached && needs_lock n b).
 
+(** actor 1 held before its id commit (it holds the write lock of [n]; nothing of its batch is committed yet):
+    actor 2 either waits for that lock or works on other datasets - a batch the store rejects changes nothing -
+    and every outcome is the sequential one.  Reached whenever actor 1's batch gets that far. *)
+Definition pairc_reached (k : cat) (n : Z) (ents : list ent) : bool :=
+  negb (Z.eqb n CORE_NAME) && match ents with [] => false | _ => exists_ds k n end.
+Definition do_pairc (fl : cflags) (k : cat) (n : Z) (ents : list ent) (b : cop) : cat :=
+  apply_cop fl (do_batch fl k n ents) b.
+
 Fixpoint agree_run (fl : cflags) (k : cat) (ops : list sop) : bool :=
   match ops with
   | [] => true
@@ -88,6 +101,10 @@ Fixpoint agree_run (fl : cflags) (k : cat) (ops : list sop) : bool :=
     let '(r, bl) := pair_flags fl k n ents b in
     Bool.eqb r reached && Bool.eqb (if cf_rmw_atomic fl then r else bl) blocked
     && agree_run fl (do_pair fl k n ents b) ops'
+  | SPairC n ents b reached blocked :: ops' =>
+    Bool.eqb (pairc_reached k n ents) reached
+    && Bool.eqb (pairc_reached k n ents && needs_lock n b) blocked
+    && agree_run fl (do_pairc fl k n ents b) ops'
   | SDetails names obs :: ops' => snapshot_eqb (predict k names) obs && agree_run fl k ops'
   end.
 Definition agree (fl : cflags) (c : tcase) : bool := agree_run fl (cat_init fl) c.
@@ -108,6 +125,7 @@ Definition ds_spec (live : list (uri * Z)) (d : dsobs) : bool :=
                    && Z.eqb (m_items m) (o_distinct d)
        | None => false
        end
+    && Z.eqb (o_latest d) (o_distinct d)     (* every distinct id has exactly one latest version *)
     && o_det_found d && Z.eqb (o_det_items d) (o_distinct d)
   else
     (* deleted / renamed-away / never used names have only deleted meta entities *)
@@ -133,6 +151,10 @@ Fixpoint first_bad (fl : cflags) (k : cat) (ops : list sop) (i : N) : option (N 
     let '(r, bl) := pair_flags fl k n ents b in
     if Bool.eqb r reached && Bool.eqb (if cf_rmw_atomic fl then r else bl) blocked
     then first_bad fl (do_pair fl k n ents b) ops' (N.succ i)
+    else Some (i, predict k [])
+  | SPairC n ents b reached blocked :: ops' =>
+    if Bool.eqb (pairc_reached k n ents) reached && Bool.eqb (pairc_reached k n ents && needs_lock n b) blocked
+    then first_bad fl (do_pairc fl k n ents b) ops' (N.succ i)
     else Some (i, predict k [])
   | SDetails names obs :: ops' =>
     if snapshot_eqb (predict k names) obs then first_bad fl k ops' (N.succ i) else Some (i, predict k names)
